@@ -329,7 +329,7 @@ func TestInterleavedSessions(t *testing.T) {
 		runtime.GOMAXPROCS(prevProcs)
 		runtime.GC()
 	}()
-	hx.Check(t, 8, func(t *rapid.T) {
+	hx.Check(t, 16, func(t *rapid.T) {
 		tps := drawTemplates(t, 3, false)
 		n := rapid.IntRange(2, 6).Draw(t, "sessions")
 		use := make([]int, n)
@@ -457,9 +457,10 @@ func TestConcurrentSessions(t *testing.T) {
 	prevProcs := runtime.GOMAXPROCS(0)
 	defer runtime.GOMAXPROCS(prevProcs)
 	caseIdx := 0
-	weight := 0.25
+	// case counts: quick 75 (main) / 15 (race); thorough 600 per shard (main) / 120 (race)
+	weight := float64(hx.Pick(25, 15)) / 100
 	if os.Getenv("VERIF_VARIANT") == "race" {
-		weight = 0.5 // the variant's base count is a tenth of the main one
+		weight = float64(hx.Pick(50, 30)) / 100 // the variant's base count is a tenth of the main one
 	}
 	hx.Check(t, weight, func(t *rapid.T) {
 		caseIdx++
